@@ -225,6 +225,19 @@ def h_row(ctx, idx):
         ctx.prove(E.not_(legal), "legal arguments rejected: %r" % (c,), key=tag + "/legal-rejected")
         return "reject:" + type(c).__name__
     ctx.prove(legal, "illegal arguments accepted (truncated into a frame)", key=tag + "/illegal-accepted")
+    # "two different commands never share a frame": another live object of the class (other, fixed
+    # arguments), constructed and decoded now, must leave this command's frame alone
+    from harness.c03_tables import _sibling
+    sib = _sibling(kind, code, param)
+    if sib is not None:
+        before = c.frame.as_integer
+        bits0 = len(c.frame)
+        st2, c2 = call(cls, *sib[0])
+        st3, d2 = call(C.from_frame, F.ForwardFrame(bits0, sib[1]), devicetype=cls.devicetype)
+        ctx.prove(st2 == "ok" and st3 == "ok" and E.eq(c2.frame.as_integer, sib[1]) and E.eq(d2.frame.as_integer, sib[1]),
+                  "a second command of the class has the wrong frame", key=tag + "/sibling-frame")
+        ctx.prove(E.eq(c.frame.as_integer, before), "constructing / decoding another command of the class changed "
+                  "this command's frame", key=tag + "/frame-shared")
     # what was decoded just before must not matter: a frame announcing any device type, and a 24-bit frame
     call(C.from_frame, F.ForwardFrame(24, 0xFFFE30))
     call(C.from_frame, F.ForwardFrame(16, 0xC100 | ctx.fresh("prime_dt", 0, 255)))
